@@ -787,6 +787,9 @@ func (ex *Exec) enterLoopHeader(st *State, fr *Frame, li *loopInfo, from *ssa.Ba
 	// havoc
 	if li.all {
 		ex.w.heapHavocAll(st.heap)
+		if isTop {
+			ex.reassumeStable(st)
+		}
 	} else {
 		for _, n := range sortedKeys(li.mods) {
 			oldA := ex.w.heapGet(st.heap, n, li.mods[n])
